@@ -111,9 +111,8 @@ Definition hagree (v : hview) (h : hcase) : bool :=
       && Bool.eqb (match holder st with Some _ => true | None => false end) (ho_locked o)
       && list_agree (fun m x => Nat.eqb (fst m) (fst x)) (sort_by_key (done_callers st)) (ho_outcomes o)
   | VH04 =>
-      (* which CALLs are written, and how validation ends call() *)
+      (* which CALLs are written, when, with which payload *)
       list_agree write_agree (filter is_call_write (writes_of st)) (filter is_call_frame (ho_writes o))
-      && outcomes_agree st o
   end.
 
 Definition hdisagreements (v : hview) (cs : list hcase) : list N :=
